@@ -3,10 +3,11 @@ CONSTANTS
   Procs = {"c1", "c2"}
   Hosts = {"a", "b"}
   Size = 1
-  MaxCalls = 3
-  MaxExpire = 2
+  MaxCalls = 2
+  MaxExpire = 0
   Kinds = {"lookup", "dial"}
-  ZeroDuration = FALSE
+  ZeroDuration = TRUE
   Faults = TRUE
 VIEW View
 INVARIANTS TypeOK SizeBound ServedFreshAndSequential NoCrossHost RefinesSequential MissReturnsOwnAnswer MutexDiscipline
+INVARIANTS NeverServedWhenZeroDuration
